@@ -12,7 +12,7 @@ From DS Require Import Proofs.TDigestProofsBase Proofs.TDigestProofsRank Proofs.
 Open Scope Q_scope.
 
 Theorem c17_tdigest_new : forall k, (10 <= k)%Z -> exists d, td_new k = Ok d.
-Proof. intros k H. unfold td_new. rewrite MIN_K_eq. replace (k <? 10)%Z with false by lia. eauto. Qed.
+Proof. exact td_new_ok. Qed.
 
 (* queries on any well-formed view (hence on any image C14 accepts with sorted means, and on every
    in-process digest): Ok, never Stuck; split lists only need to be strictly increasing ([] included) *)
@@ -20,14 +20,11 @@ Theorem c17_tdigest_queries_never_stuck : forall v, wf_view v ->
   (forall x, exists r, rank v x = Ok (Some r)) /\
   (forall q, exists x, quantile v q = Ok (Some x)) /\
   (forall sp, strictly_increasing sp = true -> exists c p, cdf v sp = Ok (Some c) /\ pmf v sp = Ok (Some p)).
-Proof.
-  intros v W. split; [apply rank_total; exact W|]. split; [apply quantile_total; exact W|].
-  intros sp H. destruct (cdf_ok v W sp H) as (l & E & _). destruct (pmf_sums_to_one v W sp H) as (p & Ep & _). eauto.
-Qed.
+Proof. exact queries_never_stuck. Qed.
 
 (* every compressed non-empty in-process digest presents such a view *)
 Theorem c17_tdigest_inprocess_views : forall h d, reach h d -> td_buf d = [] -> td_cs d <> [] -> wf_view (td_view d).
-Proof. intros h d R B C. apply (inproc_view_wf h d R B C). Qed.
+Proof. exact inproc_wf_view. Qed.
 
 (* the readers never reach a panic site, and serialize -> deserialize of a serializable state is Ok *)
 Theorem c17_tdigest_codec_never_stuck :
